@@ -21,6 +21,9 @@ def stName : Option St → String
 
 def showHit (h : Hit) : String := s!"fh={h.fh} r={toSigned h.roff} d={toSigned h.doff} L={toSigned h.len}"
 
+def showOpen (x : Ssi) : String :=
+  s!"ok flags={x.flags} offsz={x.offsz} nfiles={x.nfiles} nprimary={x.nprimary} nsecondary={x.nsecondary} flen={x.flen} plen={x.plen} slen={x.slen} frec={x.frecsize} prec={x.precsize} srec={x.srecsize} foff={toSigned x.foffset} poff={toSigned x.poffset} soff={toSigned x.soffset}"
+
 def HEXLIMIT : Nat := 1500
 
 def step (s : S) (line : String) : S × String :=
@@ -68,15 +71,20 @@ def step (s : S) (line : String) : S × String :=
       ({ s with ns := none, file := file },
        s!"{stName st} file={if file.isSome then 1 else 0} tmp=0 n={bytes.length} h={hex64 (fnvBytes bytes)}{hx}")
     | none => (s, "bad-op")
+  | "openraw" :: _ =>
+    match argHex? ws "hex" with
+    | some b =>
+      match Ssi.open b.toArray with
+      | .error e => ({ s with file := some b, ssi := none }, e.name)
+      | .ok x => ({ s with file := some b, ssi := some x }, showOpen x)
+    | none => (s, "bad-op")
   | "open" :: _ =>
     match s.file with
     | none => ({ s with ssi := none }, "enotfound")
     | some b =>
       match Ssi.open b.toArray with
       | .error e => ({ s with ssi := none }, e.name)
-      | .ok x =>
-        ({ s with ssi := some x },
-         s!"ok flags={x.flags} offsz={x.offsz} nfiles={x.nfiles} nprimary={x.nprimary} nsecondary={x.nsecondary} flen={x.flen} plen={x.plen} slen={x.slen} frec={x.frecsize} prec={x.precsize} srec={x.srecsize} foff={x.foffset} poff={x.poffset} soff={x.soffset}")
+      | .ok x => ({ s with ssi := some x }, showOpen x)
   | "find" :: _ =>
     match s.ssi, argHex? ws "k" with
     | some x, some k =>
@@ -102,7 +110,7 @@ def step (s : S) (line : String) : S × String :=
     match s.ssi, argNat? ws "fh" with
     | some x, some fh =>
       match x.fileInfo fh with
-      | .ok f => (s, s!"ok name={hexOrDash (cstr f.name)} fmt={f.format} flags={f.flags} bpl={f.bpl} rpl={f.rpl}")
+      | .ok f => (s, s!"ok name={hexOrDash (cstr f.name)} fmt={if f.format ≥ 2147483648 then (f.format : Int) - 4294967296 else f.format} flags={f.flags} bpl={f.bpl} rpl={f.rpl}")
       | .error e => (s, e.name)
     | _, _ => (s, "bad-op")
   | "close" :: _ => ({ s with ssi := none }, "ok")
